@@ -410,7 +410,7 @@ class HeapObj(object):
     def copy(self):
         it = self.items
         if isinstance(it, list):
-            it = list(it)
+            it = [list(r) for r in it] if self.kind == "matrix" else list(it)
         elif isinstance(it, dict):
             it = dict(it)
         return HeapObj(self.cls, self.kind, dict(self.fields), it)
